@@ -35,7 +35,7 @@ func c02Second(s *EnumSpec, v []int) string {
 	case "bad-port":
 		return "SIP/2.0/UDP 127.0.2.1:port"
 	}
-	e := "SIP/2.0/" + s.Val(v, "transport") + " " + map[string]string{"ip": "127.0.2.1", "name": "nh.example.net"}[s.Val(v, "host")]
+	e := "SIP/2.0/" + s.Val(v, "transport") + " " + map[string]string{"ip": "127.0.2.1", "name": "nh.example.net", "dns-name": c02DNSName}[s.Val(v, "host")]
 	if p := s.Val(v, "port"); p != "absent" {
 		e += ":" + p
 	}
@@ -97,8 +97,17 @@ func c02CfgFor(s *EnumSpec, v []int) RCfg {
 	return cfg
 }
 
+// a sent-by name that is not in the hosts section of the configuration: only the (simulated) DNS knows it
+const c02DNSName = "nhdns.example.net"
+
+func c02Start(cfg RCfg) *RelayWorld {
+	preStart = func() { vnet.SetHost(c02DNSName, false, "127.0.2.1") }
+	defer func() { preStart = nil }()
+	return StartRelayWorld(SimOpts{}, cfg)
+}
+
 func c02Eval(v []int) (string, string, bool) {
-	w := StartRelayWorld(SimOpts{}, c02CfgFor(c02Spec, v))
+	w := c02Start(c02CfgFor(c02Spec, v))
 	defer w.Close()
 	return c02EvalIn(w, v, 0)
 }
@@ -191,6 +200,9 @@ func c02EvalIn(w *RelayWorld, v []int, seq int) (string, string, bool) {
 		return "", "", true
 	}
 	addr, _ := c02Cfg.hostIP(hop.Host)
+	if hop.Host == c02DNSName {
+		addr = "127.0.2.1"
+	}
 	port := 5060
 	if hop.Port != "" {
 		port, _ = strconv.Atoi(hop.Port)
@@ -242,7 +254,7 @@ func c02AgedSpec() *AgedSpec {
 		Group: func(v []int) string {
 			return fmt.Sprintf("top=%s,arrival=%s,names=%s,rest=%s,config=%s", s.Val(v, "top"), s.Val(v, "arrival"), s.Val(v, "names"), s.Val(v, "rest"), s.Val(v, "config"))
 		},
-		Open:  func(v []int) any { return &c02Aged{w: StartRelayWorld(SimOpts{}, c02CfgFor(s, v))} },
+		Open:  func(v []int) any { return &c02Aged{w: c02Start(c02CfgFor(s, v))} },
 		Close: func(w any) { w.(*c02Aged).w.Close() },
 		Eval: func(w any, v []int) (string, string) {
 			a := w.(*c02Aged)
@@ -493,7 +505,7 @@ func init() {
 	c02Spec = &EnumSpec{Feats: []Feat{
 		{Name: "second", Vals: []string{"normal", "none", "empty", "no-sent-by", "three-colons", "no-transport", "bad-port"}},
 		{Name: "transport", Vals: []string{"UDP", "TCP", "TLS", "SCTP", "udp", "tcp"}},
-		{Name: "host", Vals: []string{"ip", "name"}},
+		{Name: "host", Vals: []string{"ip", "name", "dns-name"}},
 		{Name: "port", Vals: []string{"absent", "5060", "5070"}},
 		{Name: "received", Vals: []string{"absent", "ipv4"}},
 		{Name: "rport", Vals: []string{"absent", "valueless", "numeric", "non-numeric"}},
@@ -552,6 +564,12 @@ func init() {
 		}
 		// configuration and body size are crossed with the routing entry (transport, host, port,
 		// received, rport, rest, top, arrival) but not with the cosmetic dimensions
+		// a name only the DNS knows: crossed with the routing entry and the configuration like the body size
+		if s.Val(v, "host") == "dns-name" {
+			if v[s.idx("status")] != 0 || v[s.idx("names")] != 0 || v[s.idx("extra")] != 0 || v[s.idx("body")] != 0 || mask != 0 {
+				return true
+			}
+		}
 		if v[s.idx("config")] != 0 || v[s.idx("body")] != 0 {
 			if v[s.idx("status")] != 0 || v[s.idx("names")] != 0 || v[s.idx("extra")] != 0 || (mask != 0 && mask != (1<<(n-1))-1) {
 				return true
